@@ -131,7 +131,9 @@ def _is_exempt(verb: str, path: str, cfg: dict[str, Any]) -> str | None:
         return "options"
     if path.startswith("/.well-known/"):
         return "well-known"
-    if path == f"{prefix}/health":
+    if path == f"{prefix}/health" and cfg.get("health", True):
+        # "the exact health endpoint": with the endpoint disabled there is none, and {prefix}/health is the route of a
+        # method that happens to be called "health"
         return "health-exact"
     if cfg["pkce"] and path in tuple(f"{prefix}/_oauth/{e}" for e in OAUTH_ENDPOINTS):
         return "oauth-endpoint"
